@@ -248,6 +248,12 @@ def check_index(data, case, pres, mods):
   label = {g: str(ids[g - 1]) for g in range(1, case['ng'] + 2)}
   order = [label[g] for g in seq(case['order'])]
   given = list(order)
+  if (len(order) + case['nd']) % 2 == 0:
+    # the caller has asked the eligibility object about the same list by ID before (any earlier query is harmless)
+    try:
+      data.geo_eligibility.get_eligible_assignments(geos=list(order))
+    except Exception:  # pylint: disable=broad-except
+      pass
   try:
     data.geo_index = given
   except ValueError as e:
